@@ -372,12 +372,16 @@ fn check_common_weight(case: &CommonWeightCase) -> CaseResult {
         &case.entry,
         &Sampling::Rate {
             rate_bits: case.rate_bits,
-            words: vec![case.word],
+            // the first draw is the one the probe saw; every later draw would be a different one:
+            // an implementation that drew once per metric / observation / record instead of once
+            // per call would give some counts another of the two possible weights
+            words: vec![case.word, !case.word, case.word.rotate_left(17) ^ 0x5555_5555_5555_5555, 0, u64::MAX],
         },
         &mut out,
     );
     if dec != Decision::Ok {
-        return Ok(vec!["not-accepted"]);
+        // arb_valid entries are inside the documented domain: sampling must not change that
+        vfail!("valid-entry-rejected", "a valid entry was not accepted on the sampled path: {dec:?}");
     }
     let log = crate::reclog::record(&case.entry.prepare());
     let expected = ref_emf(&log, &case.cfg, Some(n));
